@@ -1,4 +1,622 @@
-(* C06 -- property theorems (placeholder, filled below) *)
-From V Require Import Base.Field C06.Laws.
-Theorem C06_law_model_generators : law_model 15 = Some [true; true].
+(* C06 -- pairings: pinned property theorems (statements in full; proofs in coq/C06/*Proofs.v).
+   Only `exact`; Examples show that the premises are satisfiable. *)
+From Coq Require Import ZArith Lia List.
+From V Require Import Base.Word Base.Field C15.BigIntModel C02.Quad C02.Cubic C02.Towers C02.Inst.
+From V Require Import C06.Miller C06.FinalExp C06.Tower12 C06.Laws C06.ExpAlgebra C06.FinalExpProofs C06.MillerProofs C06.Tower12Proofs C06.LawProofs C06.Examples.
+Import ListNotations.
+Open Scope Z_scope.
+
+(* (a) BLS12 hard part: the chain of bls12/mod.rs computes r^((x-1)^2 (x+p)(x^2+p^2-1)+3) for every r of the cyclotomic subgroup *)
+Theorem C06_bls12_hard_exponent :
+  forall (T : Type) (one : T) (mul : T -> T -> T) (inv : T -> T) (U : T -> Prop),
+       cgroup one mul inv U ->
+       forall Cy : T -> Prop,
+       (forall a : T, Cy a -> U a) ->
+       Cy one ->
+       (forall a b : T, Cy a -> Cy b -> Cy (mul a b)) ->
+       (forall a : T, Cy a -> Cy (inv a)) ->
+       forall (conj : T -> T) (frob : Z -> T -> T) (cyc_sq : T -> T) (p : Z),
+       (forall a : T, Cy a -> conj a = inv a) ->
+       (forall a : T, Cy a -> cyc_sq a = mul a a) ->
+       (forall (k : Z) (a : T), U a -> frob k a = pow one mul inv a (p ^ k)) ->
+       forall (x : Z) (expx : T -> T),
+       (forall a : T, Cy a -> expx a = pow one mul inv a x) ->
+       forall r : T, Cy r -> bls12_hard mul conj frob cyc_sq expx r = pow one mul inv r (bls12_hard_E p x).
+Proof. exact (@bls12_hard_exponent). Qed.
+
+(* (a) BN hard part (Fuentes-Castaneda et al.): exponent p^3(12x^3+6x^2+4x-1)+p^2(12x^3+6x^2+6x)+p(12x^3+6x^2+4x)+(12x^3+12x^2+6x+1) *)
+Theorem C06_bn_hard_exponent :
+  forall (T : Type) (one : T) (mul : T -> T -> T) (inv : T -> T) (U : T -> Prop),
+       cgroup one mul inv U ->
+       forall Cy : T -> Prop,
+       (forall a : T, Cy a -> U a) ->
+       Cy one ->
+       (forall a b : T, Cy a -> Cy b -> Cy (mul a b)) ->
+       (forall a : T, Cy a -> Cy (inv a)) ->
+       forall (conj : T -> T) (frob : Z -> T -> T) (cyc_sq : T -> T) (p : Z),
+       (forall a : T, Cy a -> conj a = inv a) ->
+       (forall a : T, Cy a -> cyc_sq a = mul a a) ->
+       (forall (k : Z) (a : T), U a -> frob k a = pow one mul inv a (p ^ k)) ->
+       forall (x : Z) (exp_neg_x : T -> T),
+       (forall a : T, Cy a -> exp_neg_x a = pow one mul inv a (- x)) ->
+       forall r : T, Cy r -> bn_hard mul conj frob cyc_sq exp_neg_x r = pow one mul inv r (bn_hard_E p x).
+Proof. exact (@bn_hard_exponent). Qed.
+
+(* easy part of BLS12/BN: f^((p^h-1)(p^2+1)) (h = 6) for every unit f *)
+Theorem C06_easy12_exponent :
+  forall (T : Type) (one : T) (mul : T -> T -> T) (inv : T -> T) (U : T -> Prop),
+       cgroup one mul inv U ->
+       forall (tinv : T -> option T) (conj : T -> T) (frob : Z -> T -> T) (p h : Z),
+       (forall a : T, U a -> tinv a = Some (inv a)) ->
+       (forall a : T, U a -> conj a = pow one mul inv a (p ^ h)) ->
+       (forall (k : Z) (a : T), U a -> frob k a = pow one mul inv a (p ^ k)) ->
+       forall f : T, U f -> easy12 mul tinv conj frob f = Some (pow one mul inv f (easy12_E p h)).
+Proof. exact (@easy12_exponent). Qed.
+
+(* BLS12 final_exponentiation = f^((p^6-1)(p^2+1) * hard exponent) *)
+Theorem C06_bls12_final_exp_exponent :
+  forall (T : Type) (one : T) (mul : T -> T -> T) (inv : T -> T) (U : T -> Prop),
+       cgroup one mul inv U ->
+       forall Cy : T -> Prop,
+       (forall a : T, Cy a -> U a) ->
+       Cy one ->
+       (forall a b : T, Cy a -> Cy b -> Cy (mul a b)) ->
+       (forall a : T, Cy a -> Cy (inv a)) ->
+       forall (tinv : T -> option T) (conj : T -> T) (frob : Z -> T -> T) (cyc_sq : T -> T) (p h : Z),
+       (forall a : T, U a -> tinv a = Some (inv a)) ->
+       (forall a : T, U a -> conj a = pow one mul inv a (p ^ h)) ->
+       (forall a : T, Cy a -> conj a = inv a) ->
+       (forall a : T, Cy a -> cyc_sq a = mul a a) ->
+       (forall (k : Z) (a : T), U a -> frob k a = pow one mul inv a (p ^ k)) ->
+       forall (x : Z) (expx : T -> T),
+       (forall a : T, Cy a -> expx a = pow one mul inv a x) ->
+       forall f : T,
+       U f ->
+       Cy (pow one mul inv f (easy12_E p h)) ->
+       bls12_final_exp mul tinv conj frob cyc_sq expx f =
+       Some (pow one mul inv f (easy12_E p h * bls12_hard_E p x)).
+Proof. exact (@bls12_final_exp_exponent). Qed.
+
+(* BN final_exponentiation = f^((p^6-1)(p^2+1) * hard exponent) *)
+Theorem C06_bn_final_exp_exponent :
+  forall (T : Type) (one : T) (mul : T -> T -> T) (inv : T -> T) (U : T -> Prop),
+       cgroup one mul inv U ->
+       forall Cy : T -> Prop,
+       (forall a : T, Cy a -> U a) ->
+       Cy one ->
+       (forall a b : T, Cy a -> Cy b -> Cy (mul a b)) ->
+       (forall a : T, Cy a -> Cy (inv a)) ->
+       forall (tinv : T -> option T) (conj : T -> T) (frob : Z -> T -> T) (cyc_sq : T -> T) (p h : Z),
+       (forall a : T, U a -> tinv a = Some (inv a)) ->
+       (forall a : T, U a -> conj a = pow one mul inv a (p ^ h)) ->
+       (forall a : T, Cy a -> conj a = inv a) ->
+       (forall a : T, Cy a -> cyc_sq a = mul a a) ->
+       (forall (k : Z) (a : T), U a -> frob k a = pow one mul inv a (p ^ k)) ->
+       forall (x : Z) (en : T -> T),
+       (forall a : T, Cy a -> en a = pow one mul inv a (- x)) ->
+       forall f : T,
+       U f ->
+       Cy (pow one mul inv f (easy12_E p h)) ->
+       bn_final_exp mul tinv conj frob cyc_sq en f = Some (pow one mul inv f (easy12_E p h * bn_hard_E p x)).
+Proof. exact (@bn_final_exp_exponent). Qed.
+
+(* final_exponentiation returns None exactly through Field::inverse (f = 0) *)
+Theorem C06_final_exp_none_12 :
+  forall (T : Type) (mul : T -> T -> T) (tinv : T -> option T) (conj : T -> T) 
+         (frob : Z -> T -> T) (cyc_sq expx : T -> T) (f : T),
+       tinv f = None ->
+       bls12_final_exp mul tinv conj frob cyc_sq expx f = None /\
+       bn_final_exp mul tinv conj frob cyc_sq expx f = None.
+Proof. exact (@final_exp_none_12). Qed.
+
+(* after the easy part conjugation is inversion (given Fermat for f in the extension field) *)
+Theorem C06_unitary_after_easy :
+  forall (T : Type) (one : T) (mul : T -> T -> T) (inv : T -> T) (U : T -> Prop),
+       cgroup one mul inv U ->
+       forall (conj : T -> T) (p h : Z),
+       (forall a : T, U a -> conj a = pow one mul inv a (p ^ h)) ->
+       forall f : T,
+       U f ->
+       pow one mul inv f (p ^ (2 * h) - 1) = one ->
+       0 <= h -> mul (conj (pow one mul inv f (easy12_E p h))) (pow one mul inv f (easy12_E p h)) = one.
+Proof. exact (@unitary_after_easy). Qed.
+
+(* if E * r = c * N and f^N = 1 then (f^E)^r = 1: outputs have order dividing r *)
+Theorem C06_output_order_divides :
+  forall (T : Type) (one : T) (mul : T -> T -> T) (inv : T -> T) (U : T -> Prop),
+       cgroup one mul inv U ->
+       forall (f : T) (E r c N : Z),
+       U f -> E * r = c * N -> pow one mul inv f N = one -> pow one mul inv (pow one mul inv f E) r = one.
+Proof. exact (@output_order_divides). Qed.
+
+(* MNT last chunk: a^(p*w1 +- w0) *)
+Theorem C06_mnt_last_chunk_exponent :
+  forall (T : Type) (one : T) (mul : T -> T -> T) (inv : T -> T) (U : T -> Prop),
+       cgroup one mul inv U ->
+       forall Cy : T -> Prop,
+       (forall a : T, Cy a -> U a) ->
+       Cy one ->
+       (forall a b : T, Cy a -> Cy b -> Cy (mul a b)) ->
+       (forall a : T, Cy a -> Cy (inv a)) ->
+       forall (frob : Z -> T -> T) (p : Z),
+       (forall (k : Z) (a : T), U a -> frob k a = pow one mul inv a (p ^ k)) ->
+       forall (w1 w0 : Z) (exp_w1 exp_w0 : T -> T) (w0_is_neg : bool),
+       (forall a : T, Cy a -> exp_w1 a = pow one mul inv a w1) ->
+       (forall a : T, Cy a -> exp_w0 a = pow one mul inv a w0) ->
+       forall a : T,
+       Cy a ->
+       mnt_last_chunk mul frob exp_w1 exp_w0 w0_is_neg a (inv a) =
+       pow one mul inv a (mnt_last_E p w1 w0 w0_is_neg).
+Proof. exact (@mnt_last_chunk_exponent). Qed.
+
+(* MNT4 final_exponentiation = v^((p^2-1)(p*w1 +- w0)) (h = 2) *)
+Theorem C06_mnt4_final_exp_exponent :
+  forall (T : Type) (one : T) (mul : T -> T -> T) (inv : T -> T) (U : T -> Prop),
+       cgroup one mul inv U ->
+       forall Cy : T -> Prop,
+       (forall a : T, Cy a -> U a) ->
+       Cy one ->
+       (forall a b : T, Cy a -> Cy b -> Cy (mul a b)) ->
+       (forall a : T, Cy a -> Cy (inv a)) ->
+       forall (tinv : T -> option T) (conj : T -> T) (frob : Z -> T -> T) (p h : Z),
+       (forall a : T, U a -> tinv a = Some (inv a)) ->
+       (forall a : T, U a -> conj a = pow one mul inv a (p ^ h)) ->
+       (forall (k : Z) (a : T), U a -> frob k a = pow one mul inv a (p ^ k)) ->
+       forall (w1 w0 : Z) (exp_w1 exp_w0 : T -> T) (w0_is_neg : bool),
+       (forall a : T, Cy a -> exp_w1 a = pow one mul inv a w1) ->
+       (forall a : T, Cy a -> exp_w0 a = pow one mul inv a w0) ->
+       forall v : T,
+       U v ->
+       Cy (pow one mul inv v (mnt4_first_E p h)) ->
+       mnt_final_exp mul tinv frob exp_w1 exp_w0 w0_is_neg (mnt4_first_chunk mul conj) v =
+       Some (pow one mul inv v (mnt4_first_E p h * mnt_last_E p w1 w0 w0_is_neg)).
+Proof. exact (@mnt4_final_exp_exponent). Qed.
+
+(* MNT6 final_exponentiation = v^((p^3-1)(p+1)(p*w1 +- w0)) (h = 3) *)
+Theorem C06_mnt6_final_exp_exponent :
+  forall (T : Type) (one : T) (mul : T -> T -> T) (inv : T -> T) (U : T -> Prop),
+       cgroup one mul inv U ->
+       forall Cy : T -> Prop,
+       (forall a : T, Cy a -> U a) ->
+       Cy one ->
+       (forall a b : T, Cy a -> Cy b -> Cy (mul a b)) ->
+       (forall a : T, Cy a -> Cy (inv a)) ->
+       forall (tinv : T -> option T) (conj : T -> T) (frob : Z -> T -> T) (p h : Z),
+       (forall a : T, U a -> tinv a = Some (inv a)) ->
+       (forall a : T, U a -> conj a = pow one mul inv a (p ^ h)) ->
+       (forall (k : Z) (a : T), U a -> frob k a = pow one mul inv a (p ^ k)) ->
+       forall (w1 w0 : Z) (exp_w1 exp_w0 : T -> T) (w0_is_neg : bool),
+       (forall a : T, Cy a -> exp_w1 a = pow one mul inv a w1) ->
+       (forall a : T, Cy a -> exp_w0 a = pow one mul inv a w0) ->
+       forall v : T,
+       U v ->
+       Cy (pow one mul inv v (mnt6_first_E p h)) ->
+       mnt_final_exp mul tinv frob exp_w1 exp_w0 w0_is_neg (mnt6_first_chunk mul conj frob) v =
+       Some (pow one mul inv v (mnt6_first_E p h * mnt_last_E p w1 w0 w0_is_neg)).
+Proof. exact (@mnt6_final_exp_exponent). Qed.
+
+(* BW6 hard part, T_MOD_R_IS_ZERO branch (Algorithm 4.3): explicit exponent bw6a_E *)
+Theorem C06_bw6_hard_a_exponent :
+  forall (T : Type) (one : T) (mul : T -> T -> T) (inv : T -> T) (U : T -> Prop),
+       cgroup one mul inv U ->
+       forall Cy : T -> Prop,
+       (forall a : T, Cy a -> U a) ->
+       Cy one ->
+       (forall a b : T, Cy a -> Cy b -> Cy (mul a b)) ->
+       (forall a : T, Cy a -> Cy (inv a)) ->
+       forall (conj : T -> T) (frob : Z -> T -> T) (p : Z),
+       (forall a : T, Cy a -> conj a = inv a) ->
+       (forall (k : Z) (a : T), U a -> frob k a = pow one mul inv a (p ^ k)) ->
+       forall (x m d1 d2 : Z) (expx exp_m exp_d1 exp_d2 tsq : T -> T),
+       (forall a : T, Cy a -> expx a = pow one mul inv a x) ->
+       (forall a : T, Cy a -> exp_m a = pow one mul inv a m) ->
+       (forall a : T, Cy a -> exp_d1 a = pow one mul inv a d1) ->
+       (forall a : T, Cy a -> exp_d2 a = pow one mul inv a d2) ->
+       (forall a : T, tsq a = mul a a) ->
+       forall f : T,
+       Cy f ->
+       bw6_hard_a mul conj frob expx exp_m exp_d1 exp_d2 tsq f = pow one mul inv f (bw6a_E p x m d1 d2).
+Proof. exact (@bw6_hard_a_exponent). Qed.
+
+(* BW6 hard part, other branch (Algorithm 4.4): explicit exponent bw6b_E *)
+Theorem C06_bw6_hard_b_exponent :
+  forall (T : Type) (one : T) (mul : T -> T -> T) (inv : T -> T) (U : T -> Prop),
+       cgroup one mul inv U ->
+       forall Cy : T -> Prop,
+       (forall a : T, Cy a -> U a) ->
+       Cy one ->
+       (forall a b : T, Cy a -> Cy b -> Cy (mul a b)) ->
+       (forall a : T, Cy a -> Cy (inv a)) ->
+       forall (conj : T -> T) (frob : Z -> T -> T) (p : Z),
+       (forall a : T, Cy a -> conj a = inv a) ->
+       (forall (k : Z) (a : T), U a -> frob k a = pow one mul inv a (p ^ k)) ->
+       forall (x m d1 d2 : Z) (expx exp_m exp_d1 exp_d2 tsq : T -> T),
+       (forall a : T, Cy a -> expx a = pow one mul inv a x) ->
+       (forall a : T, Cy a -> exp_m a = pow one mul inv a m) ->
+       (forall a : T, Cy a -> exp_d1 a = pow one mul inv a d1) ->
+       (forall a : T, Cy a -> exp_d2 a = pow one mul inv a d2) ->
+       (forall a : T, tsq a = mul a a) ->
+       forall f : T,
+       Cy f ->
+       bw6_hard_b mul conj frob expx exp_m exp_d1 exp_d2 tsq f = pow one mul inv f (bw6b_E p x m d1 d2).
+Proof. exact (@bw6_hard_b_exponent). Qed.
+
+(* BW6 easy part: f^((p^3-1)(p+1)) (h = 3) *)
+Theorem C06_bw6_easy_exponent :
+  forall (T : Type) (one : T) (mul : T -> T -> T) (inv : T -> T) (U : T -> Prop),
+       cgroup one mul inv U ->
+       forall (tinv : T -> option T) (conj : T -> T) (frob : Z -> T -> T) (p h : Z),
+       (forall a : T, U a -> tinv a = Some (inv a)) ->
+       (forall a : T, U a -> conj a = pow one mul inv a (p ^ h)) ->
+       (forall (k : Z) (a : T), U a -> frob k a = pow one mul inv a (p ^ k)) ->
+       forall f : T, U f -> bw6_easy mul tinv conj frob f = Some (pow one mul inv f ((p ^ h - 1) * (p + 1))).
+Proof. exact (@bw6_easy_exponent). Qed.
+
+(* integer powers in a commutative group: x^(a+b) = x^a x^b *)
+Theorem C06_pow_add :
+  forall (T : Type) (one : T) (mul : T -> T -> T) (inv : T -> T) (U : T -> Prop),
+       cgroup one mul inv U ->
+       forall (x : T) (a b : Z),
+       U x -> pow one mul inv x (a + b) = mul (pow one mul inv x a) (pow one mul inv x b).
+Proof. exact (@pow_add). Qed.
+
+(* (x^a)^b = x^(ab) *)
+Theorem C06_pow_mul :
+  forall (T : Type) (one : T) (mul : T -> T -> T) (inv : T -> T) (U : T -> Prop),
+       cgroup one mul inv U ->
+       forall (x : T) (a b : Z), U x -> pow one mul inv (pow one mul inv x a) b = pow one mul inv x (a * b).
+Proof. exact (@pow_mul). Qed.
+
+(* x^(-a) = (x^a)^-1 *)
+Theorem C06_pow_opp :
+  forall (T : Type) (one : T) (mul : T -> T -> T) (inv : T -> T) (U : T -> Prop),
+       cgroup one mul inv U ->
+       forall (x : T) (a : Z), U x -> pow one mul inv x (- a) = inv (pow one mul inv x a).
+Proof. exact (@pow_opp). Qed.
+
+(* (b) generic skeleton (filter, chunks of 4, loop, tail): multi Miller loop of any list = product of the single-pair values *)
+Theorem C06_multi_equals_product :
+  forall (T C P : Type) (tone : T) (tmul : T -> T -> T),
+       (forall a b c : T, tmul a (tmul b c) = tmul (tmul a b) c) ->
+       (forall a b : T, tmul a b = tmul b a) ->
+       (forall a : T, tmul tone a = a) ->
+       forall L S : @stage T C P,
+       @splits T C P tmul L ->
+       L tone [] = @Some (T * list (@pstate C P)) (tone, []) ->
+       @splits T C P tmul S ->
+       S tone [] = @Some (T * list (@pstate C P)) (tone, []) ->
+       forall (pairs : list (option P * (list C * bool))) (G : T) (R : list (@pstate C P)),
+       @product_of_pairs T C P tone tmul L S pairs = @Some (T * list (@pstate C P)) (G, R) ->
+       @multi_pairs T C P tone tmul L S pairs = @Some (T * list (@pstate C P)) (G, R).
+Proof. exact (@multi_equals_product). Qed.
+
+(* (b) same statement on already filtered pairs, including the advanced coefficient iterators *)
+Theorem C06_multi_equals_product_states :
+  forall (T C P : Type) (tone : T) (tmul : T -> T -> T),
+       (forall a b c : T, tmul a (tmul b c) = tmul (tmul a b) c) ->
+       (forall a b : T, tmul a b = tmul b a) ->
+       (forall a : T, tmul tone a = a) ->
+       forall L S : @stage T C P,
+       @splits T C P tmul L ->
+       L tone [] = @Some (T * list (@pstate C P)) (tone, []) ->
+       @splits T C P tmul S ->
+       S tone [] = @Some (T * list (@pstate C P)) (tone, []) ->
+       forall (l : list (@pstate C P)) (G : T) (R : list (@pstate C P)),
+       @product_of_singles T C P tone tmul L S l = @Some (T * list (@pstate C P)) (G, R) ->
+       @multi_loop T C P tone tmul L S l = @Some (T * list (@pstate C P)) (G, R).
+Proof. exact (@multi_equals_product_states). Qed.
+
+(* (c) a pair with an identity on either side contributes the factor 1 *)
+Theorem C06_identity_pair_dropped :
+  forall (T C P : Type) (tone : T) (tmul : T -> T -> T) (L S : @stage T C P),
+       S tone [] = @Some (T * list (@pstate C P)) (tone, []) ->
+       forall pr : option P * (list C * bool),
+       @keep_pair P C pr = [] ->
+       @multi_pairs T C P tone tmul L S [pr] = @Some (T * list (@pstate C P)) (tone, []).
+Proof. exact (@identity_pair_dropped). Qed.
+
+(* (c) the empty list gives 1 *)
+Theorem C06_empty_list_is_one :
+  forall (T C P : Type) (tone : T) (tmul : T -> T -> T) (L S : @stage T C P),
+       S tone [] = @Some (T * list (@pstate C P)) (tone, []) ->
+       @multi_pairs T C P tone tmul L S [] = @Some (T * list (@pstate C P)) (tone, []).
+Proof. exact (@empty_list_is_one). Qed.
+
+(* (b) BLS12 multi_miller_loop as executed by Run.v = product of single-pair Miller loops, every list *)
+Theorem C06_bls12_multi_equals_product :
+  forall (cid : Z) (T0 : Type) (Fp : Fops T0) (nr2 : T0) (tab2 : list T0) (nr6 : T0 * T0)
+         (tab6_1 tab6_2 : list (T0 * T0)) (nr12 : E6) (tab12 : list (T0 * T0)) (twD : bool),
+       (forall a b c : E12,
+        tmul cid Fp nr2 tab2 nr6 tab6_1 tab6_2 nr12 tab12 a
+          (tmul cid Fp nr2 tab2 nr6 tab6_1 tab6_2 nr12 tab12 b c) =
+        tmul cid Fp nr2 tab2 nr6 tab6_1 tab6_2 nr12 tab12
+          (tmul cid Fp nr2 tab2 nr6 tab6_1 tab6_2 nr12 tab12 a b) c) ->
+       (forall a b : E12,
+        tmul cid Fp nr2 tab2 nr6 tab6_1 tab6_2 nr12 tab12 a b =
+        tmul cid Fp nr2 tab2 nr6 tab6_1 tab6_2 nr12 tab12 b a) ->
+       (forall a : E12,
+        tmul cid Fp nr2 tab2 nr6 tab6_1 tab6_2 nr12 tab12 (tone cid Fp nr2 tab2 nr6 tab6_1 tab6_2 nr12 tab12)
+          a = a) ->
+       (forall f : E12,
+        tsq cid Fp nr2 tab2 nr6 tab6_1 tab6_2 nr12 tab12 f =
+        tmul cid Fp nr2 tab2 nr6 tab6_1 tab6_2 nr12 tab12 f f) ->
+       (forall (f : E12) (c0 c1 c4 : E2),
+        mul_by_014 cid Fp nr2 nr6 f c0 c1 c4 =
+        tmul cid Fp nr2 tab2 nr6 tab6_1 tab6_2 nr12 tab12 f
+          (c0, c1, (f0 Fp, f0 Fp), (f0 Fp, f0 Fp, c4, (f0 Fp, f0 Fp)))) ->
+       (forall (f : E12) (c0 c3 c4 : E2),
+        mul_by_034 cid Fp nr2 nr6 f c0 c3 c4 =
+        tmul cid Fp nr2 tab2 nr6 tab6_1 tab6_2 nr12 tab12 f
+          (c0, (f0 Fp, f0 Fp), (f0 Fp, f0 Fp), (c3, c4, (f0 Fp, f0 Fp)))) ->
+       (forall a b : E12,
+        conj12 cid Fp nr2 nr6 (tmul cid Fp nr2 tab2 nr6 tab6_1 tab6_2 nr12 tab12 a b) =
+        tmul cid Fp nr2 tab2 nr6 tab6_1 tab6_2 nr12 tab12 (conj12 cid Fp nr2 nr6 a) (conj12 cid Fp nr2 nr6 b)) ->
+       conj12 cid Fp nr2 nr6 (tone cid Fp nr2 tab2 nr6 tab6_1 tab6_2 nr12 tab12) =
+       tone cid Fp nr2 tab2 nr6 tab6_1 tab6_2 nr12 tab12 ->
+       forall (X : list Z) (xneg : bool) (pairs : list (option (T0 * T0) * (list (E2 * E2 * E2) * bool)))
+         (G : E12) (R : list pstate),
+       product_of_pairs (tone cid Fp nr2 tab2 nr6 tab6_1 tab6_2 nr12 tab12)
+         (tmul cid Fp nr2 tab2 nr6 tab6_1 tab6_2 nr12 tab12)
+         (bits_loop (tsq cid Fp nr2 tab2 nr6 tab6_1 tab6_2 nr12 tab12) (ell12 cid Fp nr2 nr6 twD)
+            (tl (bits_be_nlz X))) (bls12_tail cid Fp nr2 nr6 xneg) pairs = Some (G, R) ->
+       bls12_multi_miller_prepared cid Fp nr2 tab2 nr6 tab6_1 tab6_2 nr12 tab12 twD X xneg pairs = Some G.
+Proof. exact (@bls12_multi_equals_product). Qed.
+
+(* (c) BLS12: identity pair -> 1 *)
+Theorem C06_bls12_identity_pair_dropped :
+  forall (cid : Z) (T0 : Type) (Fp : Fops T0) (nr2 : T0) (tab2 : list T0) (nr6 : T0 * T0)
+         (tab6_1 tab6_2 : list (T0 * T0)) (nr12 : E6) (tab12 : list (T0 * T0)) (twD : bool),
+       conj12 cid Fp nr2 nr6 (tone cid Fp nr2 tab2 nr6 tab6_1 tab6_2 nr12 tab12) =
+       tone cid Fp nr2 tab2 nr6 tab6_1 tab6_2 nr12 tab12 ->
+       forall (X : list Z) (xneg : bool) (pr : option (T0 * T0) * (list (E2 * E2 * E2) * bool)),
+       keep_pair pr = [] ->
+       bls12_multi_miller_prepared cid Fp nr2 tab2 nr6 tab6_1 tab6_2 nr12 tab12 twD X xneg [pr] =
+       Some (tone cid Fp nr2 tab2 nr6 tab6_1 tab6_2 nr12 tab12).
+Proof. exact (@bls12_identity_pair_dropped). Qed.
+
+(* (c) BLS12: empty list -> 1 *)
+Theorem C06_bls12_empty_is_one :
+  forall (cid : Z) (T0 : Type) (Fp : Fops T0) (nr2 : T0) (tab2 : list T0) (nr6 : T0 * T0)
+         (tab6_1 tab6_2 : list (T0 * T0)) (nr12 : E6) (tab12 : list (T0 * T0)) (twD : bool),
+       conj12 cid Fp nr2 nr6 (tone cid Fp nr2 tab2 nr6 tab6_1 tab6_2 nr12 tab12) =
+       tone cid Fp nr2 tab2 nr6 tab6_1 tab6_2 nr12 tab12 ->
+       forall (X : list Z) (xneg : bool),
+       bls12_multi_miller_prepared cid Fp nr2 tab2 nr6 tab6_1 tab6_2 nr12 tab12 twD X xneg [] =
+       Some (tone cid Fp nr2 tab2 nr6 tab6_1 tab6_2 nr12 tab12).
+Proof. exact (@bls12_empty_is_one). Qed.
+
+(* BLS12: unprepared inputs = prepared inputs (Into<G2Prepared> is G2Prepared::from) *)
+Theorem C06_bls12_prepared_equals_unprepared :
+  forall (cid : Z) (T0 : Type) (Fp : Fops T0) (nr2 : T0) (tab2 : list T0) (nr6 : T0 * T0)
+         (tab6_1 tab6_2 : list (T0 * T0)) (nr12 : E6) (tab12 : list (T0 * T0)) (twD : bool)
+         (coeff_b : T0 * T0) (X : list Z) (xneg : bool) (pairs : list (option (T0 * T0) * g2aff)),
+       bls12_multi_miller cid Fp nr2 tab2 nr6 tab6_1 tab6_2 nr12 tab12 twD coeff_b X xneg pairs =
+       bls12_multi_miller_prepared cid Fp nr2 tab2 nr6 tab6_1 tab6_2 nr12 tab12 twD X xneg
+         (map
+            (fun pq : option (T0 * T0) * g2aff => (fst pq, bls12_prepare cid Fp nr2 twD coeff_b X (snd pq)))
+            pairs).
+Proof. exact (@bls12_prepared_equals_unprepared). Qed.
+
+(* BLS12: the G2 identity is prepared to {[], infinity} *)
+Theorem C06_bls12_prepare_identity :
+  forall (cid : Z) (T0 : Type) (Fp : Fops T0) (nr2 : T0) (twD : bool) (coeff_b : T0 * T0) (X : list Z),
+       bls12_prepare cid Fp nr2 twD coeff_b X None = ([], true).
+Proof. exact (@bls12_prepare_identity). Qed.
+
+(* (b) BN multi_miller_loop (signed digits, two Frobenius lines after the chunk product) = product of single-pair loops *)
+Theorem C06_bn_multi_equals_product :
+  forall (cid : Z) (T0 : Type) (Fp : Fops T0) (nr2 : T0) (tab2 : list T0) (nr6 : T0 * T0)
+         (tab6_1 tab6_2 : list (T0 * T0)) (nr12 : E6) (tab12 : list (T0 * T0)) (twD : bool),
+       (forall a b c : E12,
+        tmul cid Fp nr2 tab2 nr6 tab6_1 tab6_2 nr12 tab12 a
+          (tmul cid Fp nr2 tab2 nr6 tab6_1 tab6_2 nr12 tab12 b c) =
+        tmul cid Fp nr2 tab2 nr6 tab6_1 tab6_2 nr12 tab12
+          (tmul cid Fp nr2 tab2 nr6 tab6_1 tab6_2 nr12 tab12 a b) c) ->
+       (forall a b : E12,
+        tmul cid Fp nr2 tab2 nr6 tab6_1 tab6_2 nr12 tab12 a b =
+        tmul cid Fp nr2 tab2 nr6 tab6_1 tab6_2 nr12 tab12 b a) ->
+       (forall a : E12,
+        tmul cid Fp nr2 tab2 nr6 tab6_1 tab6_2 nr12 tab12 (tone cid Fp nr2 tab2 nr6 tab6_1 tab6_2 nr12 tab12)
+          a = a) ->
+       (forall f : E12,
+        tsq cid Fp nr2 tab2 nr6 tab6_1 tab6_2 nr12 tab12 f =
+        tmul cid Fp nr2 tab2 nr6 tab6_1 tab6_2 nr12 tab12 f f) ->
+       (forall (f : E12) (c0 c1 c4 : E2),
+        mul_by_014 cid Fp nr2 nr6 f c0 c1 c4 =
+        tmul cid Fp nr2 tab2 nr6 tab6_1 tab6_2 nr12 tab12 f
+          (c0, c1, (f0 Fp, f0 Fp), (f0 Fp, f0 Fp, c4, (f0 Fp, f0 Fp)))) ->
+       (forall (f : E12) (c0 c3 c4 : E2),
+        mul_by_034 cid Fp nr2 nr6 f c0 c3 c4 =
+        tmul cid Fp nr2 tab2 nr6 tab6_1 tab6_2 nr12 tab12 f
+          (c0, (f0 Fp, f0 Fp), (f0 Fp, f0 Fp), (c3, c4, (f0 Fp, f0 Fp)))) ->
+       (forall a b : E12,
+        conj12 cid Fp nr2 nr6 (tmul cid Fp nr2 tab2 nr6 tab6_1 tab6_2 nr12 tab12 a b) =
+        tmul cid Fp nr2 tab2 nr6 tab6_1 tab6_2 nr12 tab12 (conj12 cid Fp nr2 nr6 a) (conj12 cid Fp nr2 nr6 b)) ->
+       conj12 cid Fp nr2 nr6 (tone cid Fp nr2 tab2 nr6 tab6_1 tab6_2 nr12 tab12) =
+       tone cid Fp nr2 tab2 nr6 tab6_1 tab6_2 nr12 tab12 ->
+       forall (xneg : bool) (ate : list Z) (pairs : list (option (T0 * T0) * (list (E2 * E2 * E2) * bool)))
+         (G : E12) (R : list pstate),
+       product_of_pairs (tone cid Fp nr2 tab2 nr6 tab6_1 tab6_2 nr12 tab12)
+         (tmul cid Fp nr2 tab2 nr6 tab6_1 tab6_2 nr12 tab12)
+         (digits_loop (tsq cid Fp nr2 tab2 nr6 tab6_1 tab6_2 nr12 tab12) (ell12 cid Fp nr2 nr6 twD)
+            (bn_digits ate) true) (bn_tail cid Fp nr2 nr6 twD xneg) pairs = Some (G, R) ->
+       bn_multi_miller_prepared cid Fp nr2 tab2 nr6 tab6_1 tab6_2 nr12 tab12 twD xneg ate pairs = Some G.
+Proof. exact (@bn_multi_equals_product). Qed.
+
+(* (c) BN: identity pair -> 1 *)
+Theorem C06_bn_identity_pair_dropped :
+  forall (cid : Z) (T0 : Type) (Fp : Fops T0) (nr2 : T0) (tab2 : list T0) (nr6 : T0 * T0)
+         (tab6_1 tab6_2 : list (T0 * T0)) (nr12 : E6) (tab12 : list (T0 * T0)) (twD : bool),
+       conj12 cid Fp nr2 nr6 (tone cid Fp nr2 tab2 nr6 tab6_1 tab6_2 nr12 tab12) =
+       tone cid Fp nr2 tab2 nr6 tab6_1 tab6_2 nr12 tab12 ->
+       forall (xneg : bool) (ate : list Z) (pr : option (T0 * T0) * (list (E2 * E2 * E2) * bool)),
+       keep_pair pr = [] ->
+       bn_multi_miller_prepared cid Fp nr2 tab2 nr6 tab6_1 tab6_2 nr12 tab12 twD xneg ate [pr] =
+       Some (tone cid Fp nr2 tab2 nr6 tab6_1 tab6_2 nr12 tab12).
+Proof. exact (@bn_identity_pair_dropped). Qed.
+
+(* (c) BN: empty list -> 1 *)
+Theorem C06_bn_empty_is_one :
+  forall (cid : Z) (T0 : Type) (Fp : Fops T0) (nr2 : T0) (tab2 : list T0) (nr6 : T0 * T0)
+         (tab6_1 tab6_2 : list (T0 * T0)) (nr12 : E6) (tab12 : list (T0 * T0)) (twD : bool),
+       conj12 cid Fp nr2 nr6 (tone cid Fp nr2 tab2 nr6 tab6_1 tab6_2 nr12 tab12) =
+       tone cid Fp nr2 tab2 nr6 tab6_1 tab6_2 nr12 tab12 ->
+       forall (xneg : bool) (ate : list Z),
+       bn_multi_miller_prepared cid Fp nr2 tab2 nr6 tab6_1 tab6_2 nr12 tab12 twD xneg ate [] =
+       Some (tone cid Fp nr2 tab2 nr6 tab6_1 tab6_2 nr12 tab12).
+Proof. exact (@bn_empty_is_one). Qed.
+
+(* BN: unprepared inputs = prepared inputs *)
+Theorem C06_bn_prepared_equals_unprepared :
+  forall (cid : Z) (T0 : Type) (Fp : Fops T0) (nr2 : T0) (tab2 : list T0) (nr6 : T0 * T0)
+         (tab6_1 tab6_2 : list (T0 * T0)) (nr12 : E6) (tab12 : list (T0 * T0)) (twD : bool)
+         (coeff_b : T0 * T0) (xneg : bool) (ate : list Z) (tqx tqy : T0 * T0)
+         (pairs : list (option (T0 * T0) * g2aff)),
+       bn_multi_miller cid Fp nr2 tab2 nr6 tab6_1 tab6_2 nr12 tab12 twD coeff_b xneg ate tqx tqy pairs =
+       bn_multi_miller_prepared cid Fp nr2 tab2 nr6 tab6_1 tab6_2 nr12 tab12 twD xneg ate
+         (map
+            (fun pq : option (T0 * T0) * g2aff =>
+             (fst pq, bn_prepare cid Fp nr2 tab2 twD coeff_b xneg ate tqx tqy (snd pq))) pairs).
+Proof. exact (@bn_prepared_equals_unprepared). Qed.
+
+(* (d) PARTIAL: under tate_additive_l/r (the mathematical pairing is additive in each argument) e(aP,bQ) = e(P,Q)^(ab); not proved: the model value IS that pairing *)
+Theorem C06_bilinear_partial :
+  forall (G1 G2 GT : Type) (zero1 : G1) (add1 : G1 -> G1 -> G1) (neg1 : G1 -> G1) 
+         (zero2 : G2) (add2 : G2 -> G2 -> G2) (neg2 : G2 -> G2) (oneT : GT) (mulT : GT -> GT -> GT)
+         (invT : GT -> GT),
+       cgroup zero1 add1 neg1 (fun _ : G1 => True) ->
+       cgroup zero2 add2 neg2 (fun _ : G2 => True) ->
+       cgroup oneT mulT invT (fun _ : GT => True) ->
+       forall e : G1 -> G2 -> GT,
+       (forall (P P' : G1) (Q : G2), e (add1 P P') Q = mulT (e P Q) (e P' Q)) ->
+       (forall (P : G1) (Q Q' : G2), e P (add2 Q Q') = mulT (e P Q) (e P Q')) ->
+       forall (P : G1) (Q : G2) (a b : Z),
+       e (pow zero1 add1 neg1 P a) (pow zero2 add2 neg2 Q b) = pow oneT mulT invT (e P Q) (a * b).
+Proof. exact (@bilinear_partial). Qed.
+
+(* e(aP,Q) = e(P,aQ) *)
+Theorem C06_pairing_swap_scalar :
+  forall (G1 G2 GT : Type) (zero1 : G1) (add1 : G1 -> G1 -> G1) (neg1 : G1 -> G1) 
+         (zero2 : G2) (add2 : G2 -> G2 -> G2) (neg2 : G2 -> G2) (oneT : GT) (mulT : GT -> GT -> GT)
+         (invT : GT -> GT),
+       cgroup zero1 add1 neg1 (fun _ : G1 => True) ->
+       cgroup zero2 add2 neg2 (fun _ : G2 => True) ->
+       cgroup oneT mulT invT (fun _ : GT => True) ->
+       forall e : G1 -> G2 -> GT,
+       (forall (P P' : G1) (Q : G2), e (add1 P P') Q = mulT (e P Q) (e P' Q)) ->
+       (forall (P : G1) (Q Q' : G2), e P (add2 Q Q') = mulT (e P Q) (e P Q')) ->
+       forall (P : G1) (Q : G2) (a : Z), e (pow zero1 add1 neg1 P a) Q = e P (pow zero2 add2 neg2 Q a).
+Proof. exact (@pairing_swap_scalar). Qed.
+
+(* identity in the G1 slot gives 1 *)
+Theorem C06_pairing_identity_l :
+  forall (G1 G2 GT : Type) (zero1 : G1) (add1 : G1 -> G1 -> G1) (neg1 : G1 -> G1) 
+         (oneT : GT) (mulT : GT -> GT -> GT) (invT : GT -> GT),
+       cgroup zero1 add1 neg1 (fun _ : G1 => True) ->
+       cgroup oneT mulT invT (fun _ : GT => True) ->
+       forall e : G1 -> G2 -> GT,
+       (forall (P P' : G1) (Q : G2), e (add1 P P') Q = mulT (e P Q) (e P' Q)) ->
+       forall Q : G2, e zero1 Q = oneT.
+Proof. exact (@pairing_identity_l). Qed.
+
+(* identity in the G2 slot gives 1 *)
+Theorem C06_pairing_identity_r :
+  forall (G1 G2 GT : Type) (zero2 : G2) (add2 : G2 -> G2 -> G2) (neg2 : G2 -> G2) 
+         (oneT : GT) (mulT : GT -> GT -> GT) (invT : GT -> GT),
+       cgroup zero2 add2 neg2 (fun _ : G2 => True) ->
+       cgroup oneT mulT invT (fun _ : GT => True) ->
+       forall e : G1 -> G2 -> GT,
+       (forall (P : G1) (Q Q' : G2), e P (add2 Q Q') = mulT (e P Q) (e P Q')) ->
+       forall P : G1, e P zero2 = oneT.
+Proof. exact (@pairing_identity_r). Qed.
+
+(* e(aP,Q) = e(P,Q)^a for every integer a *)
+Theorem C06_pairing_smul_l :
+  forall (G1 G2 GT : Type) (zero1 : G1) (add1 : G1 -> G1 -> G1) (neg1 : G1 -> G1) 
+         (oneT : GT) (mulT : GT -> GT -> GT) (invT : GT -> GT),
+       cgroup zero1 add1 neg1 (fun _ : G1 => True) ->
+       cgroup oneT mulT invT (fun _ : GT => True) ->
+       forall e : G1 -> G2 -> GT,
+       (forall (P P' : G1) (Q : G2), e (add1 P P') Q = mulT (e P Q) (e P' Q)) ->
+       forall (P : G1) (Q : G2) (a : Z), e (pow zero1 add1 neg1 P a) Q = pow oneT mulT invT (e P Q) a.
+Proof. exact (@pairing_smul_l). Qed.
+
+(* e(P,bQ) = e(P,Q)^b *)
+Theorem C06_pairing_smul_r :
+  forall (G1 G2 GT : Type) (zero2 : G2) (add2 : G2 -> G2 -> G2) (neg2 : G2 -> G2) 
+         (oneT : GT) (mulT : GT -> GT -> GT) (invT : GT -> GT),
+       cgroup zero2 add2 neg2 (fun _ : G2 => True) ->
+       cgroup oneT mulT invT (fun _ : GT => True) ->
+       forall e : G1 -> G2 -> GT,
+       (forall (P : G1) (Q Q' : G2), e P (add2 Q Q') = mulT (e P Q) (e P Q')) ->
+       forall (P : G1) (Q : G2) (b : Z), e P (pow zero2 add2 neg2 Q b) = pow oneT mulT invT (e P Q) b.
+Proof. exact (@pairing_smul_r). Qed.
+
+(* r.P = 0 implies e(P,Q)^r = 1 *)
+Theorem C06_output_order_divides_r :
+  forall (G1 G2 GT : Type) (zero1 : G1) (add1 : G1 -> G1 -> G1) (neg1 : G1 -> G1) 
+         (oneT : GT) (mulT : GT -> GT -> GT) (invT : GT -> GT),
+       cgroup zero1 add1 neg1 (fun _ : G1 => True) ->
+       cgroup oneT mulT invT (fun _ : GT => True) ->
+       forall e : G1 -> G2 -> GT,
+       (forall (P P' : G1) (Q : G2), e (add1 P P') Q = mulT (e P Q) (e P' Q)) ->
+       forall (P : G1) (Q : G2) (r : Z),
+       pow zero1 add1 neg1 P r = zero1 -> pow oneT mulT invT (e P Q) r = oneT.
+Proof. exact (@output_order_divides_r). Qed.
+
+(* in the product specification a pair with an identity can be dropped *)
+Theorem C06_multi_pairing_identity_dropped :
+  forall (G1 G2 GT : Type) (zero1 : G1) (add1 : G1 -> G1 -> G1) (neg1 : G1 -> G1) 
+         (zero2 : G2) (add2 : G2 -> G2 -> G2) (neg2 : G2 -> G2) (oneT : GT) (mulT : GT -> GT -> GT)
+         (invT : GT -> GT),
+       cgroup zero1 add1 neg1 (fun _ : G1 => True) ->
+       cgroup zero2 add2 neg2 (fun _ : G2 => True) ->
+       cgroup oneT mulT invT (fun _ : GT => True) ->
+       forall e : G1 -> G2 -> GT,
+       (forall (P P' : G1) (Q : G2), e (add1 P P') Q = mulT (e P Q) (e P' Q)) ->
+       (forall (P : G1) (Q Q' : G2), e P (add2 Q Q') = mulT (e P Q) (e P Q')) ->
+       forall (l1 l2 : list (G1 * G2)) (P : G1) (Q : G2),
+       P = zero1 \/ Q = zero2 ->
+       multi_pairing_spec oneT mulT e (l1 ++ (P, Q) :: l2) = multi_pairing_spec oneT mulT e (l1 ++ l2).
+Proof. exact (@multi_pairing_identity_dropped). Qed.
+
+(* if e(G1,G2) were 1 the pairing would be trivial on the generated subgroups (meaning of generators_nondegenerate) *)
+Theorem C06_degenerate_generators_kill_everything :
+  forall (G1 G2 GT : Type) (zero1 : G1) (add1 : G1 -> G1 -> G1) (neg1 : G1 -> G1) 
+         (zero2 : G2) (add2 : G2 -> G2 -> G2) (neg2 : G2 -> G2) (oneT : GT) (mulT : GT -> GT -> GT)
+         (invT : GT -> GT),
+       cgroup zero1 add1 neg1 (fun _ : G1 => True) ->
+       cgroup zero2 add2 neg2 (fun _ : G2 => True) ->
+       cgroup oneT mulT invT (fun _ : GT => True) ->
+       forall e : G1 -> G2 -> GT,
+       (forall (P P' : G1) (Q : G2), e (add1 P P') Q = mulT (e P Q) (e P' Q)) ->
+       (forall (P : G1) (Q Q' : G2), e P (add2 Q Q') = mulT (e P Q) (e P Q')) ->
+       forall (g1 : G1) (g2 : G2),
+       e g1 g2 = oneT -> forall a b : Z, e (pow zero1 add1 neg1 g1 a) (pow zero2 add2 neg2 g2 b) = oneT.
+Proof. exact (@degenerate_generators_kill_everything). Qed.
+
+(* the specified answers of the law-level operations (closed finite facts) *)
+Theorem C06_law_model_all_true :
+  forall op r, law_model op = Some r -> forallb (fun b => b) r = true.
+Proof. exact law_model_all_true. Qed.
+
+(* ---- Examples: the premises are satisfiable, on non-trivial instances ---- *)
+Example C06_ex_cgroup_Z : cgroup 0 Z.add Z.opp (fun _ => True).
+Proof. exact cgroup_Z. Qed.
+(* exponent-chain premises hold for (Z, +) with p = -1, h = 1, conj = opp, frob k a = a * p^k *)
+Example C06_ex_bls12_chain :
+  bls12_hard Z.add Z.opp (fun k a => a * (-1) ^ k) (fun a => a + a) (fun a => a * 5) 7 = 7 * bls12_hard_E (-1) 5.
 Proof. vm_compute; reflexivity. Qed.
+Example C06_ex_bn_chain :
+  bn_hard Z.add Z.opp (fun k a => a * (-1) ^ k) (fun a => a + a) (fun a => a * (- 3)) 11 = 11 * bn_hard_E (-1) 3.
+Proof. vm_compute; reflexivity. Qed.
+(* Miller skeleton over the monoid (Z, 1, Z.mul) with ell f c p = f times (c + p): three pairs, one dropped *)
+Example C06_ex_multi_product :
+  multi_pairs 1 Z.mul (bits_loop (fun f => f * f) ex_ell [true; false]) (fun f st => Some (f, st)) ex_pairs
+  = product_of_pairs 1 Z.mul (bits_loop (fun f => f * f) ex_ell [true; false]) (fun f st => Some (f, st)) ex_pairs
+  /\ opt_fst (multi_pairs 1 Z.mul (bits_loop (fun f => f * f) ex_ell [true; false]) (fun f st => Some (f, st)) ex_pairs) <> Some 1.
+Proof. split; [vm_compute; reflexivity | vm_compute; discriminate]. Qed.
+(* a bilinear map: e(a, b) = a * b on (Z,+) x (Z,+) -> (Z,+) *)
+Example C06_ex_bilinear :
+  (forall P P' Q, (P + P') * Q = P * Q + P' * Q) /\ (forall P Q Q', P * (Q + Q') = P * Q + P * Q').
+Proof. exact ex_additive. Qed.
